@@ -217,6 +217,10 @@ func newTunnelChannel(stream tunnelStreamClient, tunnelMetadata metadata.MD, ser
 	select {
 	case <-c.awaitSettings:
 	case <-ctx.Done():
+		// The settings were never received, so the channel must not be used:
+		// the receive loop may still be negotiating (and writing the revision
+		// and settings that new streams read).
+		c.close(ctx.Err())
 	}
 
 	return c
